@@ -56,6 +56,14 @@ func refactorSpecials(r *Rng) []refactorSpecial {
 	add("rename-recursive-method",
 		"type Node struct {\n\tl, r *Node\n\tv    int\n}\n\nfunc (n *Node) Sum() int {\n\tif n == nil {\n\t\treturn 0\n\t}\n\treturn n.v + n.l.Sum() + n.r.Sum()\n}\n",
 		"type Node struct {\n\tl, r *Node\n\tv    int\n}\n\nfunc (node *Node) Total() int {\n\tif node == nil {\n\t\treturn 0\n\t}\n\treturn node.v + node.l.Total() + node.r.Total()\n}\n", map[string]string{"Sum": "Total"})
+	// a closure that calls back into its enclosing function; the function (and with it the closure) renamed
+	add("rename-function-called-from-its-closure",
+		"func Walk(n int) int {\n\tstep := func(k int) int {\n\t\tif k <= 0 {\n\t\t\treturn 0\n\t\t}\n\t\treturn Walk(k-1) + 1\n\t}\n\treturn step(n)\n}\n",
+		"func Traverse(depth int) int {\n\tnext := func(d int) int {\n\t\tif d <= 0 {\n\t\t\treturn 0\n\t\t}\n\t\treturn Traverse(d-1) + 1\n\t}\n\treturn next(depth)\n}\n", map[string]string{"Walk": "Traverse"})
+	// the same through a method and a nested closure
+	add("rename-method-called-from-nested-closure",
+		"type T struct{ k int }\n\nfunc (t *T) Run(n int) int {\n\tf := func() func(int) int {\n\t\treturn func(v int) int {\n\t\t\tif v <= 0 {\n\t\t\t\treturn t.k\n\t\t\t}\n\t\t\treturn t.Run(v - 1)\n\t\t}\n\t}\n\treturn f()(n)\n}\n",
+		"type T struct{ k int }\n\nfunc (self *T) Exec(n int) int {\n\tg := func() func(int) int {\n\t\treturn func(w int) int {\n\t\t\tif w <= 0 {\n\t\t\t\treturn self.k\n\t\t\t}\n\t\t\treturn self.Exec(w - 1)\n\t\t}\n\t}\n\treturn g()(n)\n}\n", map[string]string{"Run": "Exec"})
 	// string and large-integer literals replaced (default policy abstracts them)
 	add("literals-defined-types",
 		fmt.Sprintf("type Level int\n\nfunc Tag(a Level) string {\n\tif a > %d {\n\t\treturn \"high-%d\"\n\t}\n\treturn \"low\"\n}\n", 1000+k, k),
